@@ -21,11 +21,84 @@ CLAUSES = (
     'children spawned only when no retry remains (or forced); generic output '
     'completion skips failed / submit-failed; the submit number is written '
     'only at the listed sites and incremented once per job preparation (when '
-    'not already preparing). Not decided: the (N+1)(M+1) run-count bound over '
+    'not already preparing); the waiting_on_job_prep mark is cleared before every '
+    'recorded job-preparation failure. Not decided: the (N+1)(M+1) run-count bound over '
     'schedules with retry timers.')
 
 TP = 'task_pool'
 TEM = 'task_events_mgr'
+
+
+def finished_in_flow_rules(c, R1, R2):
+    """A task already finished and complete in a flow is not run again
+    when that flow reaches it (shared with C08)."""
+    # ---- finished-in-flow is not respawned
+    st = c.func(TP, 'TaskPool.spawn_task')
+    tr = [n for n in c.idx.walk(st.node) if isinstance(n, ast.Assign)
+          and norm(n.targets[0]) == 'itask.transient'
+          and norm(n.value) == 'True']
+    c.exactly(R1, 'itask.transient = True', len(tr), 1)
+    for n in tr:
+        c.guard(R1, n, [
+            StatusIn('failed', 'succeeded', 'expired', 'submit-failed') if
+            False else 'prev_status in TASK_STATUSES_FINAL',
+            'itask.is_complete()'], st)
+        c.guard_only(R1, n, [
+            'prev_status in TASK_STATUSES_FINAL', 'itask.is_complete()'], st,
+            stop=_enclosing_if(c, n, 'prev_status in TASK_STATUSES_FINAL'))
+        blk = _enclosing_if(c, n, 'prev_status in TASK_STATUSES_FINAL')
+        ok = False
+        if blk is not None:
+            top = n
+            while c.idx.parent[id(top)] is not blk:
+                top = c.idx.parent[id(top)]
+            i = next(k for k, s in enumerate(blk.body) if s is top)
+            for s in blk.body[i + 1:]:
+                if isinstance(s, ast.If) and norm(s.test) == \
+                        'itask.transient' and len(s.body) == 1 and isinstance(
+                        s.body[0], ast.Return) and norm(
+                        s.body[0].value) == 'None':
+                    ok = True
+        c.ob(R1, c.key(n, st) + ' ⟹ `if itask.transient: '
+             'return None` later in the same block', ok, c.where(n, st), '')
+    fs = c.K.name(c.idx.module('task_state'), 'TASK_STATUSES_FINAL')
+    c.ob(R1, 'task_state:TASK_STATUSES_FINAL',
+         set(fs) == {'failed', 'succeeded', 'expired', 'submit-failed'}, '',
+         str(fs))
+    # prev_status from history by flow intersection
+    gh = c.func(TP, 'TaskPool._get_task_history')
+    sts = [n for n in c.idx.walk(gh.node) if isinstance(n, ast.Assign)
+           and norm(n.targets[0]) == 'status'
+           and norm(n.value) == 'old_status']
+    c.exactly(R2, 'status = old_status', len(sts), 1)
+    for n in sts:
+        c.guard(R2, n,
+                ['set.intersection(flow_nums, old_fnums)'], gh)
+    brk = [n for n in c.idx.walk(gh.node) if isinstance(n, ast.Break)]
+    c.exactly(R2, 'break', len(brk), 1)
+    for b in brk:
+        c.guard(R2, b, ['status in TASK_STATUSES_FINAL',
+                                   'set.intersection(flow_nums, old_fnums)'],
+                gh)
+    c.floor(R2, 'select_prev_instances(name, str(point))', len(
+        c.find(gh, 'self.workflow_db_mgr.pri_dao.select_prev_instances(name, '
+               'str(point))')), 1)
+    sn = [n for n in c.idx.walk(gh.node) if isinstance(n, ast.Assign)
+          and norm(n.targets[0]) == 'submit_num' and 'max(' in norm(n.value)]
+    c.ob(R2, f'{gh.fq} :: submit_num = max over all prior '
+         'instances', len(sn) == 1 and bool(c.find(
+             sn[0].value, 'max((_s[0] for _s in info))')),
+         c.where(gh.node, gh), '')
+    # history submit number reaches the new proxy
+    lp = c.find(st, 'self._load_db_task_proxy(*_, submit_num=submit_num, *_)'
+                ) or [n for n in c.calls(st, '_load_db_task_proxy') if any(
+                    k.arg == 'submit_num' and norm(k.value) == 'submit_num'
+                    for k in n.keywords)]
+    c.floor(R2, 'submit_num passed to the new proxy', len(lp), 1)
+    rows = c.find(st, 'self.db_add_new_flow_rows(itask)')
+    c.floor(R2, 'db_add_new_flow_rows in spawn_task', len(rows), 1)
+    for n in rows:
+        c.guard(R2, n, ['prev_status is None'], st)
 
 
 def check(c):
@@ -55,73 +128,21 @@ def check(c):
     for n in c.calls(soa, 'spawn_task'):
         c.guard('C02.unique', n, ['!(c_task is not None)'], soa)
 
-    # ---- finished-in-flow is not respawned
-    st = c.func(TP, 'TaskPool.spawn_task')
-    tr = [n for n in c.idx.walk(st.node) if isinstance(n, ast.Assign)
-          and norm(n.targets[0]) == 'itask.transient'
-          and norm(n.value) == 'True']
-    c.exactly('C02.no-respawn', 'itask.transient = True', len(tr), 1)
-    for n in tr:
-        c.guard('C02.no-respawn', n, [
-            StatusIn('failed', 'succeeded', 'expired', 'submit-failed') if
-            False else 'prev_status in TASK_STATUSES_FINAL',
-            'itask.is_complete()'], st)
-        c.guard_only('C02.no-respawn', n, [
-            'prev_status in TASK_STATUSES_FINAL', 'itask.is_complete()'], st,
-            stop=_enclosing_if(c, n, 'prev_status in TASK_STATUSES_FINAL'))
-        blk = _enclosing_if(c, n, 'prev_status in TASK_STATUSES_FINAL')
-        ok = False
-        if blk is not None:
-            top = n
-            while c.idx.parent[id(top)] is not blk:
-                top = c.idx.parent[id(top)]
-            i = next(k for k, s in enumerate(blk.body) if s is top)
-            for s in blk.body[i + 1:]:
-                if isinstance(s, ast.If) and norm(s.test) == \
-                        'itask.transient' and len(s.body) == 1 and isinstance(
-                        s.body[0], ast.Return) and norm(
-                        s.body[0].value) == 'None':
-                    ok = True
-        c.ob('C02.no-respawn', c.key(n, st) + ' ⟹ `if itask.transient: '
-             'return None` later in the same block', ok, c.where(n, st), '')
-    fs = c.K.name(c.idx.module('task_state'), 'TASK_STATUSES_FINAL')
-    c.ob('C02.no-respawn', 'task_state:TASK_STATUSES_FINAL',
-         set(fs) == {'failed', 'succeeded', 'expired', 'submit-failed'}, '',
-         str(fs))
-    # prev_status from history by flow intersection
-    gh = c.func(TP, 'TaskPool._get_task_history')
-    sts = [n for n in c.idx.walk(gh.node) if isinstance(n, ast.Assign)
-           and norm(n.targets[0]) == 'status'
-           and norm(n.value) == 'old_status']
-    c.exactly('C02.history', 'status = old_status', len(sts), 1)
-    for n in sts:
-        c.guard('C02.history', n,
-                ['set.intersection(flow_nums, old_fnums)'], gh)
-    brk = [n for n in c.idx.walk(gh.node) if isinstance(n, ast.Break)]
-    c.exactly('C02.history', 'break', len(brk), 1)
-    for b in brk:
-        c.guard('C02.history', b, ['status in TASK_STATUSES_FINAL',
-                                   'set.intersection(flow_nums, old_fnums)'],
-                gh)
-    c.floor('C02.history', 'select_prev_instances(name, str(point))', len(
-        c.find(gh, 'self.workflow_db_mgr.pri_dao.select_prev_instances(name, '
-               'str(point))')), 1)
-    sn = [n for n in c.idx.walk(gh.node) if isinstance(n, ast.Assign)
-          and norm(n.targets[0]) == 'submit_num' and 'max(' in norm(n.value)]
-    c.ob('C02.history', f'{gh.fq} :: submit_num = max over all prior '
-         'instances', len(sn) == 1 and bool(c.find(
-             sn[0].value, 'max((_s[0] for _s in info))')),
-         c.where(gh.node, gh), '')
-    # history submit number reaches the new proxy
-    lp = c.find(st, 'self._load_db_task_proxy(*_, submit_num=submit_num, *_)'
-                ) or [n for n in c.calls(st, '_load_db_task_proxy') if any(
-                    k.arg == 'submit_num' and norm(k.value) == 'submit_num'
-                    for k in n.keywords)]
-    c.floor('C02.history', 'submit_num passed to the new proxy', len(lp), 1)
-    rows = c.find(st, 'self.db_add_new_flow_rows(itask)')
-    c.floor('C02.history', 'db_add_new_flow_rows in spawn_task', len(rows), 1)
-    for n in rows:
-        c.guard('C02.history', n, ['prev_status is None'], st)
+    finished_in_flow_rules(c, 'C02.no-respawn', 'C02.history')
+
+    # ---- a task whose job preparation failed leaves the prep pipeline: the
+    # waiting_on_job_prep mark (under which the main loop hands the task to
+    # submission again on every iteration, by-passing the retry timers) is
+    # cleared before the submit-failure is recorded
+    tjm = 'task_job_mgr'
+    errs = c.calls(None, '_prep_submit_task_job_error')
+    c.floor('C02.prep-exit', '_prep_submit_task_job_error sites', len(errs),
+            5)
+    for n in errs:
+        f = c.owner(n)
+        c.pre('C02.prep-exit', f, n, c.assigns(
+            'itask.waiting_on_job_prep', 'False'),
+            'itask.waiting_on_job_prep = False')
 
     # ---- failed / submit-failed only when no retry remains
     pm = c.func(TEM, 'TaskEventsManager.process_message')
@@ -223,6 +244,15 @@ def _enclosing_if(c, n, test_pat):
 
 
 VARIANTS = [
+    ('prep-flag-kept-on-platform-failure', 'cylc/flow/task_job_mgr.py',
+     '''        itask.waiting_on_job_prep = False
+        itask.local_job_file_path = None
+        self._prep_submit_task_job_error(
+            itask,
+            '(remote init)',''', '''        itask.local_job_file_path = None
+        self._prep_submit_task_job_error(
+            itask,
+            '(remote init)',''', 'C02.prep-exit'),
     ('spawn-despite-pool', 'cylc/flow/task_pool.py',
      '''        if ntask is None:
             # ntask does not exist: spawn it in the flow.''',
